@@ -56,6 +56,10 @@ func runC20(c *Ctx) {
 	c20InputCopy(c, p)
 	c20SearchInLoop(c, p)
 	c20AccumulatorScan(c, p)
+	r.Rule("slice-rescan-in-loop", "in tokenizer, parser, gosqlx and language-server code no call inside a loop passes a loop-invariant slice to a function that walks that parameter from its first element (range loop, or index loop from a constant to len): each iteration would walk the whole list again")
+	if nsr := c20SliceRescan(c, p, nil, "pkg/sql/tokenizer", "pkg/sql/parser", "pkg/gosqlx", "pkg/lsp"); nsr == 0 {
+		r.OK("slice-rescan-in-loop", "scan", "-", "no call in a loop hands a loop-invariant list to a function that walks it from the start")
+	}
 	r.Rule("cursor-search-amortised", "in pkg/sql/tokenizer a linear search over input[cursor:] is followed, on every path to a non-failing return, by a cursor advance computed from the search result")
 	if ncs := c20CursorSearch(c, p, "pkg/sql/tokenizer", nil); ncs == 0 {
 		r.OK("cursor-search-amortised", "scan", "-", "no tokenizer function searches the rest of the input")
@@ -70,6 +74,8 @@ func runC20(c *Ctx) {
 			r.Control("memo-kept", fired["memo|(*c20.Scanner).locateResumed|memoCol|(*c20.Scanner).rewind"] && !fired["memo|(*c20.Scanner).locateResumed|memoCol|(*c20.Scanner).Reset"], "controls/c20 Scanner.rewind (drops the memo, called from the loop of All: reported) and Scanner.Reset (not reached from a loop: accepted)")
 			r.Control("string-accumulation", fired["c20.joinParts|concat#1"] && !fired["c20.joinBuilder|concat#1"], "controls/c20 joinParts (s += in a loop) and joinBuilder (strings.Builder)")
 			c20CursorSearch(c, cp, "gosqlxsa/controls/c20", fired)
+			c20SliceRescan(c, cp, fired, "gosqlxsa/controls/c20")
+			r.Control("slice-rescan-in-loop", fired["c20.StartsRescanned|startOf#1"] && !fired["c20.StartOnce|startOf#1"], "controls/c20 StartsRescanned (calls startOf per index: reported) and StartOnce (calls it on the way out of the loop: not reported)")
 			r.Control("cursor-search-amortised", fired["(*c20.Scanner).peekQuote|search#1"] && !fired["(*c20.Scanner).skipToQuote|search#1"], "controls/c20 Scanner.peekQuote (searches the rest, may return without moving) and skipToQuote (moves to what it found, or fails)")
 		}
 	}
